@@ -427,12 +427,18 @@ func formatAmountQuantity(amount *ast.Amount, commodityFormats map[string]Number
 		return ""
 	}
 	if commodityFormats != nil {
-		// First try specific commodity format
-		if format, ok := commodityFormats[amount.Commodity.Symbol]; ok {
-			return FormatNumber(amount.Quantity, format)
+		// First try specific commodity format, then default format (stored under empty key)
+		format, ok := commodityFormats[amount.Commodity.Symbol]
+		if !ok {
+			format, ok = commodityFormats[""]
 		}
-		// Then try default format (stored under empty key)
-		if format, ok := commodityFormats[""]; ok {
+		// Formatting must not change the quantity: a format that shows fewer decimals
+		// than the amount carries is not applied, the amount stays as written.
+		places := 0
+		if format.HasDecimal {
+			places = format.DecimalPlaces
+		}
+		if ok && amount.Quantity.Equal(amount.Quantity.Round(int32(places))) {
 			return FormatNumber(amount.Quantity, format)
 		}
 	}
